@@ -157,11 +157,33 @@ func (fw *FileWriter) WriteEntry(entry Entry) error {
 		return ErrFileClosed
 	}
 
+	// Reject what the on-disk format cannot represent instead of storing it in a form
+	// that reads back differently (or makes the whole file unreadable).
+	if err := validateEntry(&entry); err != nil {
+		return err
+	}
+
 	shouldFlush := fw.buffer.Add(entry)
 	if shouldFlush {
 		return fw.flushLocked()
 	}
 
+	return nil
+}
+
+// validateEntry checks that an entry can be encoded faithfully: the key length is stored
+// in 16 bits and must not be zero (an empty key makes the file unloadable), the payload
+// length in 32 bits (bounded so that block sizes cannot overflow either).
+func validateEntry(entry *Entry) error {
+	if len(entry.Key) == 0 {
+		return ErrEmptyKey
+	}
+	if len(entry.Key) > MaxKeySize {
+		return ErrKeyTooLarge
+	}
+	if len(entry.Data) > MaxDataSize {
+		return ErrDataTooLarge
+	}
 	return nil
 }
 
@@ -172,6 +194,13 @@ func (fw *FileWriter) WriteEntries(entries []Entry) error {
 
 	if fw.closed {
 		return ErrFileClosed
+	}
+
+	// Validate everything first so that a rejected batch leaves nothing half-buffered.
+	for i := range entries {
+		if err := validateEntry(&entries[i]); err != nil {
+			return err
+		}
 	}
 
 	for _, entry := range entries {
